@@ -758,6 +758,38 @@ func isSyncMapLoad(cc *ssa.CallCommon) bool {
 }
 
 // nilEdges returns the edges on which the interface/pointer value v is nil / non-nil.
+// nilEdgesCell is nilEdges for a value that may first be parked in a local cell (a variable
+// captured by a closure is heap-allocated: the call result is stored and every test loads it).
+func nilEdgesCell(v ssa.Value) (isNil, nonNil []Edge) {
+	isNil, nonNil, _ = nilEdges(v)
+	if refs := v.Referrers(); refs != nil {
+		for _, rf := range *refs {
+			st, ok := rf.(*ssa.Store)
+			if !ok || st.Val != v {
+				continue
+			}
+			cell, ok := st.Addr.(*ssa.Alloc)
+			if !ok {
+				continue
+			}
+			// loads of the cell in the same function that this store reaches first
+			for _, cr := range *cell.Referrers() {
+				ld, ok := cr.(*ssa.UnOp)
+				if !ok || ld.Op != token.MUL || ld.Parent() != st.Parent() {
+					continue
+				}
+				if unspill(ld) != v && !(ld.Block() != st.Block() && instrDominates(st, ld)) {
+					continue
+				}
+				a, b, _ := nilEdges(ld)
+				isNil = append(isNil, a...)
+				nonNil = append(nonNil, b...)
+			}
+		}
+	}
+	return
+}
+
 func nilEdges(v ssa.Value) (isNil, nonNil []Edge, complete bool) {
 	complete = true
 	refs := v.Referrers()
@@ -898,6 +930,12 @@ func c02SleepRecheck(a *Anchors, r *core.Report) {
 	}
 
 	// network receive worker: Unlock ... Item()==nil ... Lock
+	recvWorkerRecheck(a, r, rule, "C02.D3")
+}
+
+// recvWorkerRecheck: the network receive worker re-examines its queue after Unlock (shared by
+// C02.D3 and C12.R9: a frame stranded in a receive queue is a message that is never delivered).
+func recvWorkerRecheck(a *Anchors, r *core.Report, rule, rid string) {
 	for _, f := range funcsOfPkgs(a.P, "net/proto") {
 		var unlocks []ssa.Instruction
 		eachInstr(f, func(in ssa.Instruction) {
@@ -925,7 +963,7 @@ func c02SleepRecheck(a *Anchors, r *core.Report) {
 				return cc != nil && cc.IsInvoke() && cc.Method.Name() == "Lock" && cc.Value == q
 			}
 			fn := fname(f)
-			key := "C02.D3|recv-worker|" + fn
+			key := rid + "|recv-worker|" + fn
 			r.Paths++
 			bad := reachAvoidEdges([]Point{after(u)}, cut, reacq, isReturn)
 			inst := "receive worker: after Unlock the queue is seen empty or the worker re-locks before returning"
